@@ -438,6 +438,17 @@ def tour():
                 if "replace:7" in op and len(cfg) > 1:
                     pre = pre + ["clone 8 7"]
                 hs.append(["reset"] + mk + cfg + pre + [op, "isUnique 0", "drop 1", "isUnique 0", "dropAll"])
+    # a panic in user code followed by every uniqueness gate: the verdict must still be "sole owner"
+    PANICKY = ["makeMut 0 77 1", "makeUnique 0 77 1", "cb 0 rawOffset clone:5,panic", "cb 0 offsetWithArc clone:5,panic",
+               "cb 0 borrowWithArc panic", "cb 0 thinWithArcMut getMut:66,panic", "cb 0 thinWithArc clone:5,panic", "unwrapOrClone 1 1"]
+    GATES = ["isUnique 0", "getMut 0 78", "getUnique 0 78", "makeMut 0 78 0", "makeUnique 0 78 0", "tryUnique 0", "tryUnwrap 0",
+             "cb 0 thinWithArcMut getMut:67,cnt", "makeMut 1 79 0", "isUnique 1", "getMut 1 79"]
+    for name in ("arc.sized", "offset.sized", "thin.hwl", "arc.boxed"):
+        mk = MAKERS[name]
+        for cfg in ([], ["clone 1 0"], ["clone 1 0", "clone 2 0"], ["clone 1 0", "conv 1 fromRawOffset"] if name == "offset.sized" else ["clone 1 0", "drop 1"]):
+            for pop in PANICKY:
+                for g in GATES:
+                    hs.append(["reset"] + mk + cfg + [pop, g, "dropAll"])
     # iterator scripts: every (reported, actual) pair with |difference| <= 2 for lengths 0..4, and a panic at every call
     for which in ("hsFromIter", "thinFromIter", "fromIter", "uniqueFromIter"):
         h = "9:9" if which in ("hsFromIter", "thinFromIter") else "-"
@@ -605,7 +616,8 @@ def monitor_history(ops, obs):
                         fails.append((i, ["C08"], "make_mut on a sole owner did not keep the allocation / cloned: %s" % o["ev"]))
                 else:
                     if ns is None or ns["blk"] == ps["blk"] or len(cl) != 1 or owners(post, ps["blk"]) != n_before - 1 or owners(post, ns["blk"]) != 1:
-                        fails.append((i, ["C08"], "make_mut on a shared handle: %s -> %s, clones=%d" % (ps, ns, len(cl))))
+                        fails.append((i, ["C08", "C03"] if (ns is not None and ns["blk"] == ps["blk"]) else ["C08"],
+                                      "make_mut on a shared handle (%d owners): %s -> %s, clones=%d" % (n_before, ps, ns, len(cl))))
                     for k2, s2 in pre.items():
                         if k2 != src and s2["blk"] == ps["blk"] and post.get(k2, {}).get("dig") != s2["dig"]:
                             fails.append((i, ["C08"], "a write through make_mut is visible through slot s%d: %s -> %s" % (k2, s2["dig"], post.get(k2, {}).get("dig"))))
@@ -614,9 +626,18 @@ def monitor_history(ops, obs):
             if f[0] == "writeSlot" and ps["kind"] == "arc":
                 if uniq != (st == "ok"):
                     fails.append((i, ["C03", "C15"], "deprecated write on Arc with %d owner(s): %s" % (n_before, st)))
-            if f[0] == "cb":
-                for m in re.finditer(r"cnt=([\d|]+);", o["out"]):
-                    pass
+            if f[0] == "cb" and "replace:" not in f[3]:
+                # counts read INSIDE the borrow callback: owners before the call plus the clones the
+                # callback itself has made so far (scripts that replace the Arc are left to the diff)
+                made = 0
+                for tok in o["out"].split(";"):
+                    if tok == "cloned":
+                        made += 1
+                    elif tok.startswith("cnt="):
+                        v = tok[4:]
+                        if "|" in v or (v.isdigit() and int(v) != n_before + made):
+                            fails.append((i, ["C04"], "count read inside the %s callback is %s while %d owning handle(s) exist (the borrow must not change the count)" % (f[2], v, n_before + made)))
+                            break
         # C06: a constructor that succeeds delivers exactly the given header and elements, in order,
         # destroys none of them, and leaves no source storage behind
         if f[0] in ("create", "iter") and st == "ok" and len(f) > 2 and f[1].isdigit() and int(f[1]) in post and int(f[1]) not in pre:
